@@ -285,8 +285,9 @@ Lemma dstep_consume a s p seq id ttl bad l :
   AInv a -> DInv s -> Rel a s -> dop_ok (d_now s) (OConsume p seq id ttl bad l) ->
   dstep_ok a s (OConsume p seq id ttl bad l).
 Proof.
-  intros HA HD HR [Hseq [Hok Hnd]]. unfold dstep_ok. cbn [d_step a_step]. destruct bad.
+  intros HA HD HR Hop. unfold dstep_ok. cbn [d_step a_step]. destruct bad.
   { split; [exact HA|split; [exact HD|split; [exact HR|split; [reflexivity|apply from_old_refl]]]]. }
+  destruct Hop as [Hop|[Hseq [Hok Hnd]]]; [discriminate|].
   pose proof (consume_ds_spec s p seq id l ttl HD Hnd) as DS. cbn zeta in DS.
   pose proof HR as [Hn HRp]. pose proof (proj2 (HRp p)) as HC.
   unfold a_consume. rewrite HC. set (C := vcert (unix (d_now s)) (d_store s) p) in *.
